@@ -148,6 +148,8 @@ structure Sound (cfg : Cfg) : Prop where
   deleteReports : cfg.deleteReports = true
   errPropagates : cfg.refundErrPropagates = true
   ackAgrees : cfg.ackAgrees = true
+  ackSteps : cfg.ackSteps = stdAckSteps
+  timeoutSteps : cfg.timeoutSteps = stdTimeoutSteps
 
 theorem inv_send (c : Ctl) (l : Ch) (p : Pkt) (key : Option (Ch × Seq)) (h : Inv c)
     (hkey : key = none ∨ key = some (l, nextSeq c l))
@@ -407,6 +409,103 @@ theorem inv_refund (cfg : Cfg) (c : Ctl) (k : Ch × Seq) (p : Pkt) (h : Inv c) (
       simp [refundForm, hf, hconv, hin']
     · exact h.rE r hr e he hke
 
+/-! ## the middleware callbacks as folds over the regenerated step lists: the standard order is `settleBy` -/
+
+/-- the fold over "application, packet data, hook" (every error returned) is `settleBy` -/
+theorem mwFold_app_hook (cfg : Cfg) (s : State) (l : Ch) (seq : Seq) (p : Pkt) (i : MwIn) :
+    (mwFold cfg s.ctl l seq p i [("app", "returned"), ("decode-data", "returned"), ("hook", "returned")] { bal := s.bal }).map
+        (mwFinish cfg s l seq p) =
+      match i.appDec with
+      | none => none
+      | some ar => settleBy cfg s l seq p ar i.act := by
+  cases ha : i.appDec with
+  | none => simp (config := { decide := true }) [mwFold, mwStep, ha]
+  | some ar =>
+    cases ar with
+    | false =>
+      cases hact : i.act with
+      | refund =>
+        cases hh : refundHook cfg s.ctl.vmeta s.bal l p (refundForm cfg s.ctl (l, seq) p) <;>
+          cases hp : cfg.refundErrPropagates <;>
+          simp (config := { decide := true }) [mwFold, mwStep, ha, hact, hh, hp, settleBy, mwFinish, ackCtlOf]
+      | after => simp (config := { decide := true }) [mwFold, mwStep, ha, hact, settleBy, mwFinish, ackCtlOf]
+      | nothing => simp (config := { decide := true }) [mwFold, mwStep, ha, hact, settleBy, mwFinish, ackCtlOf]
+    | true =>
+      cases hr : refundApp s.bal l p with
+      | none => cases i.act <;> simp (config := { decide := true }) [mwFold, mwStep, ha, hr, settleBy, refundState]
+      | some b1 =>
+        cases hact : i.act with
+        | refund =>
+          cases hh : refundHook cfg s.ctl.vmeta b1 l p (refundForm cfg s.ctl (l, seq) p) <;>
+            cases hp : cfg.refundErrPropagates <;>
+            simp (config := { decide := true }) [mwFold, mwStep, ha, hact, hr, hh, hp, settleBy, refundState, mwFinish, ackCtlOf]
+        | after => simp (config := { decide := true }) [mwFold, mwStep, ha, hact, hr, settleBy, mwFinish, ackCtlOf]
+        | nothing => simp (config := { decide := true }) [mwFold, mwStep, ha, hact, hr, settleBy, refundState, mwFinish, ackCtlOf]
+
+theorem runMw_std_timeout (cfg : Cfg) (s : State) (l : Ch) (seq : Seq) (p : Pkt) (h : cfg.timeoutSteps = stdTimeoutSteps) :
+    runMw cfg s l seq p (mwInOfTimeout cfg) cfg.timeoutSteps = refundState cfg s l seq p cfg.timeoutRefunds := by
+  rw [h]
+  simp only [runMw, stdTimeoutSteps]
+  rw [mwFold_app_hook]
+  cases hT : cfg.timeoutRefunds <;> simp [mwInOfTimeout, hT, settleBy]
+
+theorem settleState_std (cfg : Cfg) (s : State) (l : Ch) (seq : Seq) (p : Pkt) (h : cfg.timeoutSteps = stdTimeoutSteps) (mode : Mode) :
+    settleState cfg s l seq p mode = settleStateStd cfg s l seq p mode := by
+  cases mode with
+  | ackOk => rfl
+  | ackErr => rfl
+  | timeout => exact runMw_std_timeout cfg s l seq p h
+
+theorem settleAckState_std (cfg : Cfg) (s : State) (l : Ch) (seq : Seq) (p : Pkt) (w : AckWire) (h : cfg.ackSteps = stdAckSteps) :
+    settleAckState cfg s l seq p w = settleAckStateStd cfg s l seq p w := by
+  unfold settleAckState settleAckStateStd
+  rw [h]
+  cases w with
+  | undecodable => simp (config := { decide := true }) [runMw, stdAckSteps, mwFold, mwStep, mwInOfAck, AckWire.mwView, AckWire.isCanonical, Cfg.appRefunds]
+  | nonCanonical a m => simp (config := { decide := true }) [runMw, stdAckSteps, mwFold, mwStep, mwInOfAck, AckWire.mwView, AckWire.isCanonical]
+  | result b | error b | unset =>
+    simp only [runMw, stdAckSteps]
+    rw [mwFold]
+    simp (config := { decide := true }) only [mwStep, mwInOfAck, AckWire.mwView, AckWire.isCanonical, Option.isSome_some, Bool.and_self,
+      Bool.not_true, Bool.false_and, Bool.false_eq_true, ↓reduceIte]
+    rw [mwFold]
+    simp (config := { decide := true }) only [mwStep, Bool.not_true, Bool.false_and, Bool.false_eq_true, ↓reduceIte]
+    rw [mwFold_app_hook]
+    simp only [AckWire.appView, Option.getD_some, Bool.not_true, Bool.false_eq_true, ↓reduceIte]
+    try rfl
+
+/-! ### any step list with the canonical check in front -/
+
+/-- a step that is neither the application nor the hook fails or leaves the run as it is -/
+theorem mwStep_neutral (cfg : Cfg) (c : Ctl) (l : Ch) (seq : Seq) (p : Pkt) (i : MwIn) (r : MwRun) (st : String × String)
+    (h1 : st.1 ≠ "app") (h2 : st.1 ≠ "hook") :
+    mwStep cfg c l seq p i r st = none ∨ mwStep cfg c l seq p i r st = some r := by
+  unfold mwStep
+  simp only [beq_iff_eq, h1, h2, ↓reduceIte]
+  split
+  · split
+    · exact Or.inl rfl
+    · exact Or.inr rfl
+  · split
+    · split
+      · exact Or.inl rfl
+      · exact Or.inr rfl
+    · exact Or.inr rfl
+
+/-- ANY step list in which a canonical-encoding check whose error is returned stands in front of the application and the
+hook: bytes that are not the canonical encoding never reach either of them -/
+theorem mwFold_canonical_first (cfg : Cfg) (c : Ctl) (l : Ch) (seq : Seq) (p : Pkt) (i : MwIn) (hi : i.canonical = false)
+    (pre post : List (String × String)) (hpre : ∀ st ∈ pre, st.1 ≠ "app" ∧ st.1 ≠ "hook") (r : MwRun) :
+    mwFold cfg c l seq p i (pre ++ ("canonical-ack", "returned") :: post) r = none := by
+  induction pre with
+  | nil => simp (config := { decide := true }) [mwFold, mwStep, hi]
+  | cons st rest ih =>
+    have hst := hpre st List.mem_cons_self
+    simp only [List.cons_append, mwFold]
+    rcases mwStep_neutral cfg c l seq p i r st hst.1 hst.2 with h | h
+    · rw [h]
+    · rw [h]; exact ih (fun x hx => hpre x (List.mem_cons_of_mem _ hx))
+
 /-! ## the whole transition preserves the invariant -/
 
 /-- a processed refund (hook wired): the transfer application's refund, then the hook — or, when the hook's error is
@@ -473,9 +572,10 @@ theorem refundState_inv (cfg : Cfg) (hs : Sound cfg) (s s' : State) (l : Ch) (se
 theorem settleState_inv (cfg : Cfg) (hs : Sound cfg) (s s' : State) (l : Ch) (seq : Seq) (p : Pkt) (mode : Mode)
     (h : Inv s.ctl) (hk : ((l, seq), p) ∈ s.ctl.commits) (hr : settleState cfg s l seq p mode = some s') :
     Inv s'.ctl := by
+  rw [settleState_std cfg s l seq p hs.timeoutSteps] at hr
   cases mode with
   | ackOk =>
-    simp only [settleState, Option.some.injEq] at hr
+    simp only [settleStateStd, Option.some.injEq] at hr
     subst hr
     exact inv_ackOk cfg hs.ackOkChan s.ctl _ p h hk
   | ackErr => exact refundState_inv cfg hs s s' l seq p _ h hk hr
@@ -505,17 +605,19 @@ theorem doSend_inv (cfg : Cfg) (hs : Sound cfg) (s : State) (l : Ch) (sender : A
 
 /-! ## acknowledgements as they are on the wire -/
 
-theorem mem_allWires (w : AckWire) : w ∈ AckWire.all := by
+theorem mem_allWires (w : AckWire) (hc : w.isCanonical = true) : w ∈ AckWire.all := by
   cases w with
   | result b => cases b <;> simp [AckWire.all]
   | error b => cases b <;> simp [AckWire.all]
   | unset => simp [AckWire.all]
   | undecodable => simp [AckWire.all]
+  | nonCanonical a m => simp [AckWire.isCanonical] at hc
 
 /-- what `ackAgrees` says about one acknowledgement -/
-theorem ackAgrees_at (cfg : Cfg) (hag : cfg.ackAgrees = true) (w : AckWire) (b : Bool) (ha : cfg.appRefunds w = some b) :
+theorem ackAgrees_at (cfg : Cfg) (hag : cfg.ackAgrees = true) (w : AckWire) (hc : w.isCanonical = true) (b : Bool)
+    (ha : cfg.appRefunds w = some b) :
     cfg.ackAct w = if b then .refund else .after := by
-  have := List.all_eq_true.1 hag w (mem_allWires w)
+  have := List.all_eq_true.1 hag w (mem_allWires w hc)
   rw [ha] at this
   cases b with
   | true => simpa using this
@@ -523,17 +625,20 @@ theorem ackAgrees_at (cfg : Cfg) (hag : cfg.ackAgrees = true) (w : AckWire) (b :
 
 /-- when the two decisions agree, an acknowledgement on the wire is the transfer application's refund followed by the
 refund hook, or the success clean-up -/
-theorem settleAckState_agree (cfg : Cfg) (hag : cfg.ackAgrees = true) (s : State) (l : Ch) (seq : Seq) (p : Pkt) (w : AckWire) :
+theorem settleAckState_agree (cfg : Cfg) (hag : cfg.ackAgrees = true) (hst : cfg.ackSteps = stdAckSteps) (s : State)
+    (l : Ch) (seq : Seq) (p : Pkt) (w : AckWire) (hc : w.isCanonical = true) :
     settleAckState cfg s l seq p w =
       match cfg.appRefunds w with
       | none => none
       | some true => refundState cfg s l seq p true
       | some false => some { s with ctl := ackOkCtl { cfg with ackOkCallsAfter := true } s.ctl (l, seq) p } := by
-  unfold settleAckState
+  rw [settleAckState_std cfg s l seq p w hst]
+  unfold settleAckStateStd
+  simp only [hc, Bool.not_true, Bool.false_eq_true, ↓reduceIte]
   cases ha : cfg.appRefunds w with
   | none => rfl
   | some b =>
-    have := ackAgrees_at cfg hag w b ha
+    have := ackAgrees_at cfg hag w hc b ha
     cases b with
     | true => simp only [this, ↓reduceIte, settleBy]
     | false => simp only [this, Bool.false_eq_true, ↓reduceIte, settleBy]
@@ -545,13 +650,14 @@ theorem cfg_after_eq (cfg : Cfg) (h : cfg.ackOkCallsAfter = true) : { cfg with a
   rfl
 
 /-- … and, when the canonical shapes are wired as they should, it IS the settlement at the mode it is classified as -/
-theorem settleAckState_mode (cfg : Cfg) (hag : cfg.ackAgrees = true) (hA : cfg.ackOkCallsAfter = true)
-    (hE : cfg.ackErrRefunds = true) (s : State) (l : Ch) (seq : Seq) (p : Pkt) (w : AckWire) :
+theorem settleAckState_mode (cfg : Cfg) (hag : cfg.ackAgrees = true) (hst : cfg.ackSteps = stdAckSteps)
+    (hA : cfg.ackOkCallsAfter = true)
+    (hE : cfg.ackErrRefunds = true) (s : State) (l : Ch) (seq : Seq) (p : Pkt) (w : AckWire) (hc : w.isCanonical = true) :
     settleAckState cfg s l seq p w =
       match cfg.appRefunds w with
       | none => none
       | some b => settleState cfg s l seq p (if b then .ackErr else .ackOk) := by
-  rw [settleAckState_agree cfg hag]
+  rw [settleAckState_agree cfg hag hst s l seq p w hc]
   cases ha : cfg.appRefunds w with
   | none => rfl
   | some b =>
@@ -560,8 +666,9 @@ theorem settleAckState_mode (cfg : Cfg) (hag : cfg.ackAgrees = true) (hA : cfg.a
     | false => simp [settleState, cfg_after_eq cfg hA]
 
 /-- the whole step: an acknowledgement on the wire that the codec accepts is the step of the mode it is classified as -/
-theorem stepWith_ackw (cfg : Cfg) (hag : cfg.ackAgrees = true) (hA : cfg.ackOkCallsAfter = true)
-    (hE : cfg.ackErrRefunds = true) (s : State) (l : Ch) (seq : Seq) (w : AckWire) (b : Bool)
+theorem stepWith_ackw (cfg : Cfg) (hag : cfg.ackAgrees = true) (hst : cfg.ackSteps = stdAckSteps)
+    (hA : cfg.ackOkCallsAfter = true)
+    (hE : cfg.ackErrRefunds = true) (s : State) (l : Ch) (seq : Seq) (w : AckWire) (hc : w.isCanonical = true) (b : Bool)
     (ha : cfg.appRefunds w = some b) :
     stepWith cfg s (.ackw l seq w) = stepWith cfg s (.settle l seq (if b then .ackErr else .ackOk)) := by
   simp only [stepWith, settleW, settle]
@@ -569,17 +676,20 @@ theorem stepWith_ackw (cfg : Cfg) (hag : cfg.ackAgrees = true) (hA : cfg.ackOkCa
   | none => rfl
   | some p =>
     simp only
-    rw [settleAckState_mode cfg hag hA hE, ha]
+    rw [settleAckState_mode cfg hag hst hA hE s l seq p w hc, ha]
 
 /-- bytes the codec rejects (or an acknowledgement no path of the application applies to): the callback fails, nothing
 changes, the packet stays committed -/
-theorem stepWith_ackw_undecodable (cfg : Cfg) (s : State) (l : Ch) (seq : Seq) (w : AckWire)
-    (ha : cfg.appRefunds w = none) :
+theorem stepWith_ackw_undecodable (cfg : Cfg) (hst : cfg.ackSteps = stdAckSteps) (s : State) (l : Ch) (seq : Seq) (w : AckWire)
+    (ha : cfg.appRefunds w = none ∨ w.isCanonical = false) :
     stepWith cfg s (.ackw l seq w) = (s, .stuck s.ctl.rel) ∨ stepWith cfg s (.ackw l seq w) = (s, .noop s.ctl.rel) := by
   simp only [stepWith, settleW]
   cases hl : lookup (l, seq) s.ctl.commits with
   | none => right; rfl
-  | some p => left; simp [settleAckState, ha]
+  | some p =>
+    left
+    have hstd := settleAckState_std cfg s l seq p w hst
+    rcases ha with ha | ha <;> simp [hstd, settleAckStateStd, ha]
 
 theorem settleW_inv (cfg : Cfg) (hs : Sound cfg) (s : State) (l : Ch) (seq : Seq) (w : AckWire) (h : Inv s.ctl) :
     Inv (settleW cfg s l seq w).1.ctl := by
@@ -592,7 +702,11 @@ theorem settleW_inv (cfg : Cfg) (hs : Sound cfg) (s : State) (l : Ch) (seq : Seq
     | none => exact h
     | some s' =>
       simp only
-      rw [settleAckState_agree cfg hs.ackAgrees] at hst
+      have hcan : w.isCanonical = true := by
+        cases hcw : w.isCanonical with
+        | true => rfl
+        | false => rw [settleAckState_std cfg s l seq p w hs.ackSteps] at hst; simp [settleAckStateStd, hcw] at hst
+      rw [settleAckState_agree cfg hs.ackAgrees hs.ackSteps s l seq p w hcan] at hst
       cases ha : cfg.appRefunds w with
       | none => rw [ha] at hst; cases hst
       | some b =>
@@ -670,6 +784,8 @@ structure Removes (cfg : Cfg) : Prop where
   deleteReports : cfg.deleteReports = true
   errPropagates : cfg.refundErrPropagates = true
   ackAgrees : cfg.ackAgrees = true
+  ackSteps : cfg.ackSteps = stdAckSteps
+  timeoutSteps : cfg.timeoutSteps = stdTimeoutSteps
 
 theorem refundState_rel (cfg : Cfg) (hsees : cfg.refundSees = true) (hch : cfg.refundChan = .src)
     (hseq : cfg.refundSeq = true) (hrep : cfg.deleteReports = true) (hp : cfg.refundErrPropagates = true)
@@ -682,16 +798,17 @@ theorem refundState_rel (cfg : Cfg) (hsees : cfg.refundSees = true) (hch : cfg.r
 /-- a processed settlement leaves the relation store as it was, minus the record of exactly that (channel, sequence) -/
 theorem settleState_rel (cfg : Cfg) (hR : Removes cfg) (s s' : State) (l : Ch) (seq : Seq) (p : Pkt) (mode : Mode)
     (hr : settleState cfg s l seq p mode = some s') : s'.ctl.rel = dropRel s.ctl.rel (l, seq) := by
+  rw [settleState_std cfg s l seq p hR.timeoutSteps] at hr
   cases mode with
   | ackOk =>
-    simp only [settleState, Option.some.injEq] at hr
+    simp only [settleStateStd, Option.some.injEq] at hr
     subst hr
     exact ackOk_rel cfg hR.ackOkRemoves hR.ackOkChan hR.ackOkSeq s.ctl _ p
   | ackErr =>
-    simp only [settleState, hR.ackErrRefunds] at hr
+    simp only [settleStateStd, hR.ackErrRefunds] at hr
     exact refundState_rel cfg hR.refundSees hR.refundChan hR.refundSeq hR.deleteReports hR.errPropagates s s' l seq p hr
   | timeout =>
-    simp only [settleState, hR.timeoutRefunds] at hr
+    simp only [settleStateStd, hR.timeoutRefunds] at hr
     exact refundState_rel cfg hR.refundSees hR.refundChan hR.refundSeq hR.deleteReports hR.errPropagates s s' l seq p hr
 
 theorem settle_frame (cfg : Cfg) (hR : Removes cfg) (s : State) (l : Ch) (seq : Seq) (mode : Mode) :
@@ -715,6 +832,7 @@ theorem settle_removes (cfg : Cfg) (hR : Removes cfg) (s : State) (l : Ch) (seq 
 theorem settle_removes_failure (cfg : Cfg) (hE : cfg.ackErrRefunds = true)
     (hT : cfg.timeoutRefunds = true) (hS : cfg.refundSees = true) (hch : cfg.refundChan = .src)
     (hseq : cfg.refundSeq = true) (hrep : cfg.deleteReports = true) (hp : cfg.refundErrPropagates = true)
+    (hts : cfg.timeoutSteps = stdTimeoutSteps)
     (s : State) (l : Ch) (seq : Seq) (mode : Mode) (hm : mode ≠ .ackOk) :
     (stepWith cfg s (.settle l seq mode)).2.isDone →
       (stepWith cfg s (.settle l seq mode)).1.ctl.rel = dropRel s.ctl.rel (l, seq) := by
@@ -727,13 +845,14 @@ theorem settle_removes_failure (cfg : Cfg) (hE : cfg.ackErrRefunds = true)
     | none => intro hd; obtain ⟨_, _, _, _, _, _, _, hd⟩ := hd; cases hd
     | some s' =>
       intro _
+      rw [settleState_std cfg s l seq p hts] at hst
       cases mode with
       | ackOk => exact absurd rfl hm
       | ackErr =>
-        simp only [settleState, hE] at hst
+        simp only [settleStateStd, hE] at hst
         exact refundState_rel cfg hS hch hseq hrep hp s s' l seq p hst
       | timeout =>
-        simp only [settleState, hT] at hst
+        simp only [settleStateStd, hT] at hst
         exact refundState_rel cfg hS hch hseq hrep hp s s' l seq p hst
 
 /-- whenever the success branch deletes under another prefix than the one the record is written under, a success ack
@@ -775,12 +894,27 @@ theorem refundState_commits (cfg : Cfg) (s s' : State) (l : Ch) (seq : Seq) (p :
     obtain ⟨_, _, hs'⟩ := refundState_false cfg s s' l seq p hr
     subst hs'; rfl
 
+theorem ackCtlOf_commits (cfg : Cfg) (c : Ctl) (k : Ch × Seq) (p : Pkt) (ar : Bool) (act : HookAct) (ok : Bool) :
+    (ackCtlOf cfg c k p ar act ok).commits = dropCommit c.commits k := by
+  cases ar <;> cases act <;> cases ok <;> simp [ackCtlOf, refundCtl, ackOkCtl]
+
+/-- whatever the step list: a run of a middleware callback that reaches its end has dropped the packet's commitment -/
+theorem runMw_commits (cfg : Cfg) (s s' : State) (l : Ch) (seq : Seq) (p : Pkt) (i : MwIn) (steps : List (String × String))
+    (hr : runMw cfg s l seq p i steps = some s') : s'.ctl.commits = dropCommit s.ctl.commits (l, seq) := by
+  unfold runMw at hr
+  cases hf : mwFold cfg s.ctl l seq p i steps { bal := s.bal } with
+  | none => simp [hf] at hr
+  | some r =>
+    simp only [hf, Option.map_some, Option.some.injEq] at hr
+    subst hr
+    exact ackCtlOf_commits _ _ _ _ _ _ _
+
 theorem settleState_commits (cfg : Cfg) (s s' : State) (l : Ch) (seq : Seq) (p : Pkt) (mode : Mode)
     (hr : settleState cfg s l seq p mode = some s') : s'.ctl.commits = dropCommit s.ctl.commits (l, seq) := by
   cases mode with
   | ackOk => simp only [settleState, Option.some.injEq] at hr; subst hr; rfl
   | ackErr => exact refundState_commits cfg s s' l seq p _ hr
-  | timeout => exact refundState_commits cfg s s' l seq p _ hr
+  | timeout => exact runMw_commits cfg s s' l seq p _ _ hr
 
 /-- a settlement that was processed (or found nothing to process) is final: every later acknowledgement or timeout of
 the same (channel, sequence) is a no-op.  (A settlement whose callback failed was rolled back and can be retried.) -/
@@ -888,7 +1022,7 @@ theorem settle_refund_credits (cfg : Cfg) (hs : Sound cfg) (hE : cfg.ackErrRefun
     cases mode with
     | ackOk => exact absurd rfl hm
     | ackErr => simp [settleState, hE, refundState, hb1, hform, hb']
-    | timeout => simp [settleState, hT, refundState, hb1, hform, hb']
+    | timeout => simp [settleState_std cfg _ _ _ _ hs.timeoutSteps, settleStateStd, hT, refundState, hb1, hform, hb']
   have hstep : stepWith cfg s (.settle e.ch e.seq mode) =
       ({ bal := b', ctl := refundCtl cfg s.ctl (e.ch, e.seq) p },
         doneOut { bal := b', ctl := refundCtl cfg s.ctl (e.ch, e.seq) p } e.ch p) := by
@@ -931,7 +1065,7 @@ theorem settle_refund_stuck (cfg : Cfg) (hs : Sound cfg) (hE : cfg.ackErrRefunds
     cases mode with
     | ackOk => exact absurd rfl hm
     | ackErr => simp [settleState, hE, hrs]
-    | timeout => simp [settleState, hT, hrs]
+    | timeout => simp [settleState_std cfg _ _ _ _ hs.timeoutSteps, settleStateStd, hT, hrs]
   simp [stepWith, settle, hl, hst]
 
 /-- while the conversion of the aliased token's pair is toggled off (or the erc20 module is disabled) the refund callback
@@ -971,7 +1105,7 @@ theorem settle_refund_disabled (cfg : Cfg) (hs : Sound cfg) (hE : cfg.ackErrRefu
     cases mode with
     | ackOk => exact absurd rfl hm
     | ackErr => simp [settleState, hE, hrs]
-    | timeout => simp [settleState, hT, hrs]
+    | timeout => simp [settleState_std cfg _ _ _ _ hs.timeoutSteps, settleStateStd, hT, hrs]
   simp [stepWith, settle, hl, hst]
 
 /-! ## receive -/
@@ -993,6 +1127,30 @@ theorem memoStep_ok (cfg : Cfg) (hx : cfg.memoPassHex = false) (hb : cfg.memoPas
     (memoStep cfg b src dst m snd).2 = true ↔ m ≠ .callrev ∧ m ≠ .callpay := by
   cases m <;> simp [memoStep, memoCaller_derived cfg hx hb]
 
+/-! ### the denomination the middleware recomputes -/
+
+/-- every bank denomination of the model is recovered from its trace -/
+theorem ofR_traceOf (src : Ch) (d : Denom) : Denom.ofR (traceOf src d) = some d := by
+  cases d <;> simp (config := { decide := true }) [traceOf, Denom.ofR]
+
+/-- the transfer application credits a packet of class `t` in the denomination `bankDenom t l` -/
+theorem appDenom_pkt (src l : Ch) (t : Tok) : appDenom src l (pktDenom t src) = traceOf src (bankDenom t l) := by
+  cases t <;> simp [appDenom, pktDenom, traceOf, bankDenom, stripHop]
+
+/-- the program of the unchanged tree answers, for EVERY denomination path (any number of hops, any base name) on any
+channel, exactly the denomination the transfer application credits -/
+theorem hookDenom_std (src dst : Ch) (pd : PDenom) : hookDenom stdParseProg src dst pd = appDenom src dst pd := by
+  unfold hookDenom stdParseProg appDenom
+  by_cases h : pd.hops.head? = some src
+  · simp (config := { decide := true }) [List.find?, evalPCond, evalPRes, chanSelOf, ChanSel.pick, h]
+  · have hb : (pd.hops.head? == some src) = false := by simpa using h
+    simp (config := { decide := true }) [List.find?, evalPCond, evalPRes, chanSelOf, ChanSel.pick, h, hb]
+
+theorem hookSees_ok (cfg : Cfg) (h : ∀ src dst pd, hookDenom cfg.parseProg src dst pd = appDenom src dst pd) (src l : Ch) (t : Tok) :
+    hookSees cfg src l t = some (bankDenom t l) := by
+  unfold hookSees
+  rw [h, appDenom_pkt, ofR_traceOf]
+
 /-- what the receive needs from the configuration -/
 structure RecvOk (cfg : Cfg) : Prop where
   discards : cfg.recvDiscards = true
@@ -1004,6 +1162,11 @@ structure RecvOk (cfg : Cfg) : Prop where
   retChan : cfg.recvRetChan = .src
   noPassHex : cfg.memoPassHex = false
   noPassBech : cfg.memoPassBech = false
+  /-- `parseIBCCoinDenom` answers, for every denomination path on every channel, what the transfer application credits -/
+  parse : ∀ src dst pd, hookDenom cfg.parseProg src dst pd = appDenom src dst pd
+
+theorem convStepD_bank (cfg : Cfg) (vmeta : List Ch) (b : Bal) (l : Ch) (t : Tok) (k : RKind) (to : Addr) (amt : Nat) :
+    convStepD cfg vmeta b (bankDenom t l) k to amt = convStep cfg vmeta b l t k to amt := rfl
 
 /-- a successful receive went through the transfer application, a successful conversion block and a non-reverting memo
 block, in this order -/
@@ -1022,7 +1185,7 @@ theorem recvBal_ok (cfg : Cfg) (hc : RecvOk cfg) (vmeta : List Ch) (b : Bal) (sr
     simp only [ha, hc.order, Bool.not_true, Bool.false_eq_true, ↓reduceIte] at h ⊢
     have hret : (returning t && !(cfg.recvRetChan.pick src l == some src)) = false := by
       simp [hc.retChan, ChanSel.pick]
-    simp only [recvHook, hret, Bool.false_eq_true, ↓reduceIte, hc.memoAfter] at h ⊢
+    simp only [recvHook, hret, Bool.false_eq_true, ↓reduceIte, hc.memoAfter, hookSees_ok cfg hc.parse, convStepD_bank] at h ⊢
     cases hcv : convStep cfg vmeta b1 l t k to amt with
     | mk b2 ok =>
       cases ok with
@@ -1058,7 +1221,7 @@ theorem convStep_nonhex (cfg : Cfg) (hc : RecvOk cfg) (vmeta : List Ch) (b : Bal
 minted there, and the bank side is: coin moved from the receiver to the module accounts -/
 theorem convStep_hex_ok (cfg : Cfg) (hc : RecvOk cfg) (vmeta : List Ch) (b b2 : Bal) (l : Ch) (t : Tok) (to : Addr) (amt : Nat)
     (ht : t ≠ .F) (h : convStep cfg vmeta b l t .hex to amt = (b2, true)) :
-    ∃ et, ercTokOf t l = some et ∧ t ≠ .U ∧ t ≠ .X ∧ (t = .A → cfg.aliasFirst = true) ∧
+    ∃ et, ercTokOf t l = some et ∧ t ≠ .U ∧ t ≠ .X ∧ t ≠ .Y ∧ (t = .A → cfg.aliasFirst = true) ∧
       b2.erc = sadd b.erc (to, et) amt ∧ b2.marker = b.marker ∧ b2.caller = b.caller ∧
       amt ≤ sget b.bank (to, bankDenom t l) ∧
       (∀ a d, d ≠ bankDenom t l → (t = .A → d ≠ .base) → sget b2.bank (a, d) = sget b.bank (a, d)) ∧
@@ -1078,7 +1241,7 @@ theorem convStep_hex_ok (cfg : Cfg) (hc : RecvOk cfg) (vmeta : List Ch) (b b2 : 
     · simp only [hoff, Bool.false_eq_true, hlt, ↓reduceIte, Prod.mk.injEq] at h
       obtain ⟨h, _⟩ := h
       subst h
-      refine ⟨.nat, rfl, by simp, by simp, by simp, rfl, rfl, rfl, Nat.le_of_not_lt hlt, ?_, ?_, ?_⟩
+      refine ⟨.nat, rfl, by simp, by simp, by simp, by simp, rfl, rfl, rfl, Nat.le_of_not_lt hlt, ?_, ?_, ?_⟩
       · intro a d hd1 _
         simp only [bankDenom] at hd1
         simp [get_add, get_sub, Ne.symm hd1]
@@ -1107,7 +1270,7 @@ theorem convStep_hex_ok (cfg : Cfg) (hc : RecvOk cfg) (vmeta : List Ch) (b b2 : 
       simp only [hoff, Bool.false_eq_true, hlt2, ↓reduceIte, Prod.mk.injEq] at h
       obtain ⟨h, _⟩ := h
       subst h
-      refine ⟨.v l, rfl, by simp, by simp, by simp, rfl, rfl, rfl, Nat.le_of_not_lt hlt, ?_, ?_, ?_⟩
+      refine ⟨.v l, rfl, by simp, by simp, by simp, by simp, rfl, rfl, rfl, Nat.le_of_not_lt hlt, ?_, ?_, ?_⟩
       · intro a d hd1 _
         simp only [bankDenom] at hd1
         simp [get_add, get_sub, Ne.symm hd1]
@@ -1120,6 +1283,61 @@ theorem convStep_hex_ok (cfg : Cfg) (hc : RecvOk cfg) (vmeta : List Ch) (b b2 : 
         have hle := Nat.le_of_not_lt hlt
         simp only [bankDenom, get_add, get_sub, Prod.mk.injEq, e1, e2, and_true, ↓reduceIte]
         omega
+  | W =>
+    simp only [bankDenom, toBaseCoin, Denom.isIbc, Bool.not_true, Bool.false_eq_true, ↓reduceIte, resolve] at h
+    by_cases hlt : sget b.bank (to, Denom.vW l) < amt
+    · simp [hlt] at h
+    · simp only [hlt, ↓reduceIte, convertCoin, pairOf] at h
+      by_cases hoff : (b.paused || b.off.contains (ETok.w l)) = true
+      · simp only [hoff, ↓reduceIte] at h; simp at h
+      have hlt2 : ¬ sget (sadd (sadd (ssub b.bank (to, Denom.vW l) amt) (transferMod, Denom.vW l) amt) (to, Denom.vW l) amt)
+          (to, Denom.vW l) < amt := by simp [get_add]
+      simp only [hoff, Bool.false_eq_true, hlt2, ↓reduceIte, Prod.mk.injEq] at h
+      obtain ⟨h, _⟩ := h
+      subst h
+      refine ⟨.w l, rfl, by simp, by simp, by simp, by simp, rfl, rfl, rfl, Nat.le_of_not_lt hlt, ?_, ?_, ?_⟩
+      · intro a d hd1 _
+        simp only [bankDenom] at hd1
+        simp [get_add, get_sub, Ne.symm hd1]
+      · intro _ _ d hd1
+        simp only [bankDenom] at hd1
+        simp [get_add, get_sub, Ne.symm hd1]
+      · intro hn1 hn2
+        have e1 : ¬ (transferMod = to) := fun e => hn1 e.symm
+        have e2 : ¬ (erc20Mod = to) := fun e => hn2 e.symm
+        have hle := Nat.le_of_not_lt hlt
+        simp only [bankDenom, get_add, get_sub, Prod.mk.injEq, e1, e2, and_true, ↓reduceIte]
+        omega
+  | Z =>
+    simp only [bankDenom, toBaseCoin, Denom.isIbc, Bool.not_true, Bool.false_eq_true, ↓reduceIte, resolve] at h
+    by_cases hlt : sget b.bank (to, Denom.vZ l) < amt
+    · simp [hlt] at h
+    · simp only [hlt, ↓reduceIte, convertCoin, pairOf] at h
+      by_cases hoff : (b.paused || b.off.contains (ETok.z l)) = true
+      · simp only [hoff, ↓reduceIte] at h; simp at h
+      have hlt2 : ¬ sget (sadd (sadd (ssub b.bank (to, Denom.vZ l) amt) (transferMod, Denom.vZ l) amt) (to, Denom.vZ l) amt)
+          (to, Denom.vZ l) < amt := by simp [get_add]
+      simp only [hoff, Bool.false_eq_true, hlt2, ↓reduceIte, Prod.mk.injEq] at h
+      obtain ⟨h, _⟩ := h
+      subst h
+      refine ⟨.z l, rfl, by simp, by simp, by simp, by simp, rfl, rfl, rfl, Nat.le_of_not_lt hlt, ?_, ?_, ?_⟩
+      · intro a d hd1 _
+        simp only [bankDenom] at hd1
+        simp [get_add, get_sub, Ne.symm hd1]
+      · intro _ _ d hd1
+        simp only [bankDenom] at hd1
+        simp [get_add, get_sub, Ne.symm hd1]
+      · intro hn1 hn2
+        have e1 : ¬ (transferMod = to) := fun e => hn1 e.symm
+        have e2 : ¬ (erc20Mod = to) := fun e => hn2 e.symm
+        have hle := Nat.le_of_not_lt hlt
+        simp only [bankDenom, get_add, get_sub, Prod.mk.injEq, e1, e2, and_true, ↓reduceIte]
+        omega
+  | Y =>
+    simp only [bankDenom, toBaseCoin, Denom.isIbc, Bool.not_true, Bool.false_eq_true, ↓reduceIte, resolve] at h
+    by_cases hlt : sget b.bank (to, Denom.vY l) < amt
+    · simp [hlt] at h
+    · simp [hlt, convertCoin, pairOf] at h
   | A =>
     simp only [bankDenom, toBaseCoin, Denom.isIbc, Bool.not_true, Bool.false_eq_true, ↓reduceIte, resolve,
       Bool.true_or] at h
@@ -1136,7 +1354,7 @@ theorem convStep_hex_ok (cfg : Cfg) (hc : RecvOk cfg) (vmeta : List Ch) (b b2 : 
         simp only [hoff, Bool.false_eq_true, hlt2, ↓reduceIte, Prod.mk.injEq] at h
         obtain ⟨h, _⟩ := h
         subst h
-        refine ⟨.base, rfl, by simp, by simp, by simp, rfl, rfl, rfl, Nat.le_of_not_lt hlt, ?_, ?_, ?_⟩
+        refine ⟨.base, rfl, by simp, by simp, by simp, by simp, rfl, rfl, rfl, Nat.le_of_not_lt hlt, ?_, ?_, ?_⟩
         · intro a d hd1 hd2
           simp only [bankDenom] at hd1
           have hd2' := hd2 rfl
@@ -1183,7 +1401,7 @@ theorem recvApp_eff {b b1 : Bal} {l : Ch} {t : Tok} {to : Addr} {amt : Nat} (h :
 theorem recvWith_credit_or_error (cfg : Cfg) (hc : RecvOk cfg) (s : State) (l : Ch) (t : Tok) (to : Addr) (amt : Nat)
     (m : Memo) (snd : Nat) :
     ((stepWith cfg s (.recv l t .hex to amt m snd)).2.isRecv true ∧ 0 < amt ∧
-      (stepWith cfg s (.recv l t .hex to amt m snd)).1.ctl = s.ctl ∧ t ≠ .U ∧ t ≠ .X ∧ (t = .A → cfg.aliasFirst = true) ∧
+      (stepWith cfg s (.recv l t .hex to amt m snd)).1.ctl = s.ctl ∧ t ≠ .U ∧ t ≠ .X ∧ t ≠ .Y ∧ (t = .A → cfg.aliasFirst = true) ∧
       (t = .F →
         (to ≠ escrow l → sget (stepWith cfg s (.recv l t .hex to amt m snd)).1.bal.bank (to, Denom.fx) =
           sget s.bal.bank (to, Denom.fx) + amt) ∧
@@ -1216,11 +1434,11 @@ theorem recvWith_credit_or_error (cfg : Cfg) (hc : RecvOk cfg) (s : State) (l : 
       rw [convStep_F cfg hc] at hcv
       simp only [Prod.mk.injEq, and_true] at hcv
       subst hcv
-      refine ⟨by simp, by simp, by simp, ?_, by simp⟩
+      refine ⟨by simp, by simp, by simp, by simp, ?_, by simp⟩
       intro _
       exact ⟨fun hne => ato hne, fun a d hd => aother a d (by simpa [bankDenom] using hd), ae⟩
-    · obtain ⟨et, het, hU, hX, hA, ce, _, _, _, cother, cto, cto0⟩ := convStep_hex_ok cfg hc _ _ _ _ _ _ _ hF hcv
-      refine ⟨hU, hX, hA, fun h => absurd h hF, fun _ => ⟨et, het, ?_, ?_, ?_, ?_⟩⟩
+    · obtain ⟨et, het, hU, hX, hY, hA, ce, _, _, _, cother, cto, cto0⟩ := convStep_hex_ok cfg hc _ _ _ _ _ _ _ hF hcv
+      refine ⟨hU, hX, hY, hA, fun h => absurd h hF, fun _ => ⟨et, het, ?_, ?_, ?_, ?_⟩⟩
       · rw [ce, ae]; simp [get_add]
       · intro k hk; rw [ce, ae]; simp [get_add, Ne.symm hk]
       · intro a d hd hdA; rw [cother a d hd hdA, aother a d hd]
@@ -1287,7 +1505,7 @@ theorem recvWith_memo (cfg : Cfg) (hc : RecvOk cfg) (s : State) (l : Ch) (t : To
           · subst hF; rw [convStep_F cfg hc] at hcv; simp only [Prod.mk.injEq, and_true] at hcv; rw [hcv]
           · cases k with
             | hex =>
-              obtain ⟨_, _, _, _, _, _, hmk, _⟩ := convStep_hex_ok cfg hc _ _ _ _ _ _ _ hF hcv
+              obtain ⟨_, _, _, _, _, _, _, hmk, _⟩ := convStep_hex_ok cfg hc _ _ _ _ _ _ _ hF hcv
               exact hmk
             | bech =>
               have := convStep_nonhex cfg hc s.ctl.vmeta b1 l t .bech to amt hF (by simp)
@@ -1321,7 +1539,8 @@ theorem recvWith_memo_pay (cfg : Cfg) (hc : RecvOk cfg) (s : State) (l : Ch) (t 
     | some b1' =>
       have hret : (returning t && !(cfg.recvRetChan.pick (cpOf s.ctl l) l == some (cpOf s.ctl l))) = false := by
         simp [hc.retChan, ChanSel.pick]
-      simp only [ha, hc.order, Bool.not_true, Bool.false_eq_true, ↓reduceIte, recvHook, hret, hc.memoAfter] at hr
+      simp only [ha, hc.order, Bool.not_true, Bool.false_eq_true, ↓reduceIte, recvHook, hret, hc.memoAfter,
+        hookSees_ok cfg hc.parse, convStepD_bank] at hr
       cases hcv' : convStep cfg s.ctl.vmeta b1' l t k to amt with
       | mk b2' ok =>
         cases ok with
@@ -1448,15 +1667,16 @@ theorem life_settleState (cfg : Cfg) (hR : Removes cfg) (s s' : State) (l : Ch) 
     (h : Life s.ctl) (hr : settleState cfg s l seq p mode = some s') : Life s'.ctl := by
   have hrel := settleState_rel cfg hR s s' l seq p mode hr
   have hcom := settleState_commits cfg s s' l seq p mode hr
+  rw [settleState_std cfg s l seq p hR.timeoutSteps] at hr
   have hev : s'.ctl.evmSent = s.ctl.evmSent := by
     cases mode with
-    | ackOk => simp only [settleState, Option.some.injEq] at hr; subst hr; rfl
+    | ackOk => simp only [settleStateStd, Option.some.injEq] at hr; subst hr; rfl
     | ackErr =>
-      simp only [settleState, hR.ackErrRefunds] at hr
+      simp only [settleStateStd, hR.ackErrRefunds] at hr
       obtain ⟨_, _, _, _, hs'⟩ := refundState_true cfg hR.errPropagates s s' l seq p hr
       subst hs'; rfl
     | timeout =>
-      simp only [settleState, hR.timeoutRefunds] at hr
+      simp only [settleStateStd, hR.timeoutRefunds] at hr
       obtain ⟨_, _, _, _, hs'⟩ := refundState_true cfg hR.errPropagates s s' l seq p hr
       subst hs'; rfl
   -- the settled key is logged as acknowledged or refunded; both logs only grow
@@ -1464,15 +1684,15 @@ theorem life_settleState (cfg : Cfg) (hR : Removes cfg) (s s' : State) (l : Ch) 
       (∀ k ∈ s.ctl.ackedOk, k ∈ s'.ctl.ackedOk) ∧ (∀ r ∈ s.ctl.refundLog, r ∈ s'.ctl.refundLog) := by
     cases mode with
     | ackOk =>
-      simp only [settleState, Option.some.injEq] at hr; subst hr
+      simp only [settleStateStd, Option.some.injEq] at hr; subst hr
       exact ⟨Or.inl List.mem_cons_self, fun k hk => List.mem_cons_of_mem _ hk, fun r hr => hr⟩
     | ackErr =>
-      simp only [settleState, hR.ackErrRefunds] at hr
+      simp only [settleStateStd, hR.ackErrRefunds] at hr
       obtain ⟨_, _, _, _, hs'⟩ := refundState_true cfg hR.errPropagates s s' l seq p hr
       subst hs'
       exact ⟨Or.inr ⟨_, List.mem_cons_self, rfl⟩, fun k hk => hk, fun r hr => List.mem_cons_of_mem _ hr⟩
     | timeout =>
-      simp only [settleState, hR.timeoutRefunds] at hr
+      simp only [settleStateStd, hR.timeoutRefunds] at hr
       obtain ⟨_, _, _, _, hs'⟩ := refundState_true cfg hR.errPropagates s s' l seq p hr
       subst hs'
       exact ⟨Or.inr ⟨_, List.mem_cons_self, rfl⟩, fun k hk => hk, fun r hr => List.mem_cons_of_mem _ hr⟩
@@ -1547,7 +1767,11 @@ theorem life_step (cfg : Cfg) (hR : Removes cfg) (s : State) (op : Op) (hi : Inv
       cases hst : settleAckState cfg s l seq p w with
       | none => exact h
       | some s' =>
-        rw [settleAckState_mode cfg hR.ackAgrees hA hR.ackErrRefunds] at hst
+        have hcan : w.isCanonical = true := by
+          cases hcw : w.isCanonical with
+          | true => rfl
+          | false => rw [settleAckState_std cfg s l seq p w hR.ackSteps] at hst; simp [settleAckStateStd, hcw] at hst
+        rw [settleAckState_mode cfg hR.ackAgrees hR.ackSteps hA hR.ackErrRefunds s l seq p w hcan] at hst
         cases ha : cfg.appRefunds w with
         | none => rw [ha] at hst; cases hst
         | some b => rw [ha] at hst; exact life_settleState cfg hR s s' l seq p _ h hst
@@ -1596,7 +1820,7 @@ theorem settle_refund_cosmos (cfg : Cfg) (hs : Sound cfg) (hE : cfg.ackErrRefund
     cases mode with
     | ackOk => exact absurd rfl hm
     | ackErr => simp [settleState, hE]
-    | timeout => simp [settleState, hT]
+    | timeout => simp [settleState_std cfg _ _ _ _ hs.timeoutSteps, settleStateStd, hT]
   rw [hmode]
   simp only [refundState, refundApp, hret, ↓reduceIte]
   by_cases hlt : sget s.bal.bank (escrow l, bankDenom p.tok l) < p.amt
